@@ -6,7 +6,7 @@ from .. import AnalysisError
 from ..flow import show, walk_term
 from ..report import ob_ok, ob_fail, ob_undecided
 from .common import (is_call, method_call, node_attr, edge_attr, elem_of, strip_wrappers, guards_of,
-                     enclosing_loops, need, contains)
+                     enclosing_loops, need, contains, strip_sites)
 from . import truth
 
 SELF = ("param", "self")
@@ -99,6 +99,12 @@ def prov_matcher_shape(repo, tier="quick"):
             continue
         rt = fl.canon(n.ast.value, p) if n.ast.value is not None else None
         matched = None
+        lazy = None
+        # next(<generator of ((s, t), (a, b)) ... if compatible(a, b)>, None): the first element of the filtered search
+        nx_ = is_call(rt, "next") if rt is not None else None
+        if nx_ and rt[2] == ("builtin", "next") and len(nx_[0]) == 2 and nx_[0][1] == ("const", None) and nx_[0][0][0] == "comp" and nx_[0][0][1] == "gen":
+            lazy = nx_[0][0]
+            rt = lazy[3]
         for call, nid, a, b, sn, tn in good_calls:
             want = ("tuple", (("tuple", (sn, tn)), ("tuple", (a, b))))
             if rt == want:
@@ -111,6 +117,17 @@ def prov_matcher_shape(repo, tier="quick"):
                          reason="nodes and descriptors returned are those of the tested pair"))
         gs = guards_of(fi, p)
         controlled = False
+        if lazy is not None:
+            # the filter of the generator is the guard; the `is None` test in front of the return excludes the exhausted search
+            ct_ = fl.canon(matched[0], matched[1])
+            conds_ = [c_ for g_ in lazy[4] for c_ in g_[2]]
+            in_filter = any(strip_sites(c_) == strip_sites(ct_) for c_ in conds_)
+            excluded = any((not pol_) and isinstance(t_, ast.Compare) and isinstance(t_.ops[0], ast.Is) and isinstance(t_.comparators[0], ast.Constant)
+                           and t_.comparators[0].value is None for t_, pol_, _g in gs) or \
+                any(pol_ and isinstance(t_, ast.Compare) and isinstance(t_.ops[0], ast.IsNot) and isinstance(t_.comparators[0], ast.Constant)
+                    and t_.comparators[0].value is None for t_, pol_, _g in gs)
+            controlled = in_filter and excluded
+            gs = []
         for test, pol, gid in gs:
             if pol and any(sub is matched[0] for sub in ast.walk(test)):
                 # the test must be true only if compatible() is true: test is the call itself or a conjunction containing it
